@@ -145,9 +145,32 @@ def is_mutable(t):
     return t[0] in ('list', 'arr', 'arr2', 'dict', 'set', 'rec')
 
 
+def canon(t):
+    """representation type: names are ints, 1-D arrays are lists (same z3 sort)"""
+    k = t[0]
+    if k == 'name':
+        return INT
+    if k in ('int', 'real', 'bool', 'none', 'opaque', 'rec'):
+        return t
+    if k == 'arr':
+        return ('list', canon(t[1]))
+    if k in ('opt', 'list', 'arr2', 'set'):
+        return (k, canon(t[1]))
+    if k == 'dict':
+        return ('dict', canon(t[1]), canon(t[2]))
+    if k == 'tuple':
+        return ('tuple', tuple(canon(x) for x in t[1]))
+    return t
+
+
 def sort_of(t):
     if t in _SORTS:
         return _SORTS[t]
+    c = canon(t)
+    if c != t:
+        s = sort_of(c)
+        _SORTS[t] = s
+        return s
     k = t[0]
     if k in ('int', 'name'):
         s = z3.IntSort()
